@@ -352,7 +352,9 @@ Relation(g, e, X) ==
     [] role = "model" ->
          IF ~(b.op = e.op /\ ModelNoKind(b.model0) = ModelNoKind(e.model0)
               /\ EraseOwn(b.teams, b.model.kind) = EraseOwn(e.teams, e.model.kind)
-              /\ (IsRateEv(b) => b.ranks = e.ranks /\ b.scores = e.scores /\ b.tau = e.tau /\ b.limit = e.limit))
+              /\ (IsRateEv(b) => /\ EraseOwn(b.ranks, b.model.kind) = EraseOwn(e.ranks, e.model.kind)
+                                 /\ EraseOwn(b.scores, b.model.kind) = EraseOwn(e.scores, e.model.kind)
+                                 /\ b.tau = e.tau /\ b.limit = e.limit))
            THEN {"bind.group_model_mismatch"}
          ELSE (IF b.out.kind # e.out.kind THEN {GP(e, "accepts_differently:" \o b.model.kind \o "/" \o e.model.kind)}
                ELSE IF ~Ok(e) THEN (IF b.out.exc = e.out.exc THEN {} ELSE {GP(e, "exception_class_differs:" \o b.out.exc \o "/" \o e.out.exc)})
